@@ -22,6 +22,17 @@ func init() {
 		}
 		s.yieldPoint(site)
 	}
+	verifpt.LockHook = func(try func() bool) {
+		s := Current()
+		if s == nil || s.InTeardown() {
+			return
+		}
+		if try() {
+			return // free: nothing to wait for, and no extra step in the schedule
+		}
+		conn := s.GoroutineConn()
+		s.Park("autolock", s.ActorName(conn), conn, "", try)
+	}
 	if os.Getenv("VERIF_FINE_DEBUG") != "" {
 		var mu sync.Mutex
 		seen := map[string]bool{}
